@@ -168,7 +168,12 @@ pub unsafe extern "C" fn clock_gettime(clk: clockid_t, ts: *mut timespec) -> c_i
         3..=6 => 1_000_000 + (r >> 8) % 1_000_000_000,         // ms..s
         _ => 1_000 + (r >> 8) % 1_000_000,                     // µs..ms
     };
-    let now = CLOCK_NS.fetch_add(jump, SeqCst) + jump;
+    // saturating: a workload that reads the clock tens of millions of times must not wrap
+    // the simulated clock (it stays monotone: once saturated it stands still)
+    let prev = CLOCK_NS
+        .fetch_update(SeqCst, SeqCst, |v| Some(v.saturating_add(jump).min(u64::MAX / 4)))
+        .unwrap_or(0);
+    let now = prev.saturating_add(jump).min(u64::MAX / 4);
     let base: u64 = if clk == libc::CLOCK_REALTIME {
         1_700_000_000 + mix3(seed, 1, 2) % 100_000_000
     } else {
